@@ -392,6 +392,15 @@ func (x *Exec) mergeValue(c *Term, a, b Value) Value {
 		}
 	case SliceV:
 		if bv, ok := b.(SliceV); ok {
+			// an empty slice has no element to read: it merges into the other slice's backing store
+			if av.Obj != bv.Obj && av.Obj != nil && bv.Obj != nil && av.Str == bv.Str {
+				if isZero(av.Len) && isZero(av.Cap) {
+					return SliceV{Obj: bv.Obj, Off: bv.Off, Len: Ite(c, av.Len, bv.Len), Cap: Ite(c, av.Cap, bv.Cap), Nil: Ite(c, av.Nil, bv.Nil), Str: bv.Str}
+				}
+				if isZero(bv.Len) && isZero(bv.Cap) {
+					return SliceV{Obj: av.Obj, Off: av.Off, Len: Ite(c, av.Len, bv.Len), Cap: Ite(c, av.Cap, bv.Cap), Nil: Ite(c, av.Nil, bv.Nil), Str: av.Str}
+				}
+			}
 			if av.Obj == bv.Obj || av.Obj == nil || bv.Obj == nil {
 				o := av.Obj
 				if o == nil {
